@@ -9,6 +9,9 @@ CLAIMED = {
  "C08": dict(technique="static analysis: scoped error-flow (every error under frac.Seal must be returned/wrapped/stored/fatal), must-pass-through publish order (sync<rename<dirsync, registry last), who-may-call ownership of file removal, file-set typestate over crash prefixes",
              text="Every path of the sealing code is examined for a swallowed error, a publish step that can run after a failed step, or a release of the originals that is not dominated by a successful seal: each is a necessary condition of all-or-nothing sealing. Torn file contents are not decided.",
              note="Trusted: go/ssa, the set of error-handling idioms accepted as propagation (DESIGN §2.3 ERRFLOW), frozen owner table; scope is static callees+closures in frac, disk, bytespool, packer, zstd, util.", ref="§3 C08"),
+ "C15": dict(technique="static analysis: file-set typestate — file-operation sequences extracted from SSA in program order per configuration, every crash prefix classified by the loader decision table (also extracted from SSA); ownership/provenance of the ordered fraction list; ordering/ack rules for the cache file",
+             text="All crash prefixes of create/seal/release/suicide/loader-cleanup (abstract file sets, enumerated completely for the extracted sequences) are classified by the loader's own decision logic: never fatal, live fractions served, begun deletions finished. Plus structural rules for oldest-first retention and the atomic cache-file update. File contents and size accounting are not decided.",
+             note="Trusted: go/ssa, the suffix/flag abstraction (a file is its suffix), the assumption that completed directory operations are not reordered by a crash; tables in checker/internal/props/c15.go, filemodel.go.", ref="§3 C15"),
 }
 
 NOT_YET = "check not built yet in this round (planned in DESIGN.md §3); nothing is claimed for it"
